@@ -154,7 +154,9 @@ def _spec_match(spec, symb):
     r, t = symb
     if spec == r or spec == t:
         return True
-    if r.endswith("." + spec):
+    if r.endswith("." + spec) or r.endswith("::" + spec):
+        return True
+    if t is not None and (t + "?" == spec):
         return True
     if t is not None and t.endswith("." + spec) is False and "." not in spec and r == spec:
         return True
@@ -310,12 +312,18 @@ def show(atom):
 
 
 # ------------------------------------------------------------------ spec parsing
-_TOK = re.compile(r"\s*(>=|<=|==|!=|>|<|\+|-|\*|\(|\)|!|[A-Za-z_][A-Za-z0-9_:.\[\]']*(?:\([^()]*\))?|\d+)")
+_TOK = re.compile(r"\s*(>=|<=|==|!=|>|<|\+|-|\*|\(|\)|!|[A-Za-z_][A-Za-z0-9_:.\[\]']*(?:\([^()]*\))?\??|\d+)")
 
 
 def parse_atom(text):
     """`a + 2 > T.f`, `!T.flag`, `T.flag`, `len(x) != len(y)`; symbols are spec symbols"""
     text = text.strip()
+    mv = re.match(r"^(.*?)\s+is\s+(not\s+)?(None|Some|Ok|Err|#\d+)$", text)
+    if mv:
+        idx = {"None": 0, "Some": 1, "Ok": 0, "Err": 1}.get(mv.group(3))
+        if idx is None:
+            idx = int(mv.group(3)[1:])
+        return ("notvariant" if mv.group(2) else "variant", (mv.group(1).strip(), "spec"), idx)
     m = re.match(r"^(.*?)(>=|<=|==|!=|>|<)(.*)$", text)
     if not m:
         neg = text.startswith("!")
@@ -406,18 +414,28 @@ def edge_atoms(fv, bi):
 
 
 def scenario_cut(fv, assumptions):
-    """edges contradicted by the assumptions"""
+    """edges contradicted by the assumptions.  Fixpoint: once edges are cut, locals whose other
+    definitions became unreachable are single-definition again (conditional constants such as
+    `let delta = if num == 1 { 1 } else { 2 }`), which may decide further branches."""
     cut = set()
-    for bi in range(fv.n):
-        if fv.b.cleanup[bi]:
-            continue
-        if fv.b.term(bi).kind != "switch":
-            continue
-        for tg, atom in edge_atoms(fv, bi):
-            if atom is None:
+    view = fv
+    for _ in range(6):
+        new = set()
+        for bi in range(fv.n):
+            if fv.b.cleanup[bi]:
                 continue
-            if decide(atom, assumptions) is False:
-                cut.add((bi, tg))
+            if fv.b.term(bi).kind != "switch":
+                continue
+            for tg, atom in edge_atoms(view, bi):
+                if atom is None:
+                    continue
+                if decide(atom, assumptions) is False:
+                    new.add((bi, tg))
+        if new <= cut:
+            break
+        cut |= new
+        live = fv.reach(0, cut_edges=cut)
+        view = fv.restricted(live)
     return cut
 
 
